@@ -4,7 +4,7 @@
 # usage: tools/selftest.sh [<seeded dir name> ...]      (default: all)
 cd "$(dirname "$0")/.."
 root=/tmp/fm_selftest
-names=("$@"); [ ${#names[@]} -eq 0 ] && names=($(ls seeded))
+names=("$@"); [ ${#names[@]} -eq 0 ] && names=($(cd seeded && ls -d C*-*/ | tr -d /))
 fail=0
 for n in "${names[@]}"; do
   prop=${n%%-*}
@@ -13,6 +13,11 @@ for n in "${names[@]}"; do
   if ! (cd "$t" && patch -s -p1 < /verif/seeded/$n/patch.diff); then echo "$n: patch does not apply to the current tree"; fail=1; rm -rf "$t"; continue; fi
   FM_REPO=$t FM_EVIDENCE=$t/evidence FM_REPLAYS=$t/replays ./fmcheck run $prop --tier quick > "$t/out.txt" 2>&1; rc=$?
   v=$(grep -c '^VIOLATION' "$t/out.txt")
+  if grep -q '"expected": "silent"' seeded/$n/meta.json; then
+    # a change that was judged NOT to violate the property as stated: the check must stay silent
+    if [ $rc -eq 0 ]; then echo "$n: silent as expected (not a violation of $prop as stated)"; else echo "$n: UNEXPECTED exit $rc"; fail=1; fi
+    rm -rf "$t"; continue
+  fi
   if [ $rc -eq 1 ] && [ "$v" -gt 0 ]; then echo "$n: detected by $prop ($(grep -m1 '^  class' "$t/out.txt" | cut -c3-120))"; else echo "$n: NOT DETECTED by $prop (exit $rc)"; fail=1; fi
   rm -rf "$t"
 done
